@@ -150,6 +150,18 @@ theorem c09_push_decision (s : State) (p v : Nat) :
   · intro w ws h; simp [h]
   · intro h; simp [h]
 
+/-- A `push` whose item constructor throws (no pop waiting) has no effect at all: the state - items, waiters, every
+future, the lock (a lock region is a step: it has ended) - is what it was, and the caller sees the exception. -/
+theorem c09_push_throw_no_effect (s : State) :
+    (step s Op.pushthrow).1 = s ∧ (s.alive = true → s.waiters = [] → (step s Op.pushthrow).2 = Res.threw) := by
+  unfold step
+  constructor
+  · simp only; split
+    · exact pushThrow_state s
+    · rfl
+  · intro ha hw
+    simp [ha, stepLive, stepPushThrow, hw]
+
 /-- `unblock_pop(c)` fails exactly the oldest waiting pop with the given exception and touches nothing else;
 with nobody waiting it reports false and is a no-op. -/
 theorem c09_unblock_oldest (s : State) (c : Nat) :
